@@ -318,3 +318,47 @@ func (p *PKI) stdServerCert(names []string, rsaKey, selfSigned bool) gmtls.Certi
 	extraCerts[k] = c
 	return c
 }
+
+// SM2LeafValid mints a server signing ("sign"), server encryption ("enc") or client ("client")
+// certificate for the PKI's usual key of that role under the SM2 CA, valid from nb to na.
+func (p *PKI) SM2LeafValid(kind string, nb, na time.Time) gmtls.Certificate {
+	extraMu.Lock()
+	defer extraMu.Unlock()
+	key := map[string]*sm2.PrivateKey{"sign": p.SignKey, "enc": p.EncKey, "client": p.ClientKey}[kind]
+	der := sm2Cert("server "+kind, int64(500+len(extraCerts)), &key.PublicKey, p.CA, p.CAKey, func(t *gx509.Certificate) {
+		t.NotBefore, t.NotAfter = nb, na
+		switch kind {
+		case "sign":
+			t.KeyUsage = gx509.KeyUsageDigitalSignature
+			t.DNSNames = []string{ServerName, AltName}
+		case "enc":
+			t.KeyUsage = gx509.KeyUsageKeyEncipherment | gx509.KeyUsageDataEncipherment | gx509.KeyUsageKeyAgreement
+			t.DNSNames = []string{ServerName, AltName}
+		default:
+			t.KeyUsage = gx509.KeyUsageDigitalSignature
+			t.ExtKeyUsage = []gx509.ExtKeyUsage{gx509.ExtKeyUsageClientAuth}
+		}
+	})
+	c := gmtls.Certificate{Certificate: [][]byte{der}, PrivateKey: key}
+	extraCerts[fmt.Sprintf("sm2leaf/%s/%d", kind, len(extraCerts))] = c
+	return c
+}
+
+// StdLeafValid mints an ECDSA server (or client) certificate under the standard CA, valid from nb to na.
+func (p *PKI) StdLeafValid(client bool, nb, na time.Time) gmtls.Certificate {
+	extraMu.Lock()
+	defer extraMu.Unlock()
+	key, _ := ecdsa.GenerateKey(elliptic.P256(), rand.Reader)
+	t := &stdx509.Certificate{SerialNumber: big.NewInt(int64(700 + len(extraCerts))), Subject: pkix.Name{CommonName: "std leaf with its own validity"}, NotBefore: nb, NotAfter: na,
+		DNSNames: []string{ServerName}, KeyUsage: stdx509.KeyUsageDigitalSignature, ExtKeyUsage: []stdx509.ExtKeyUsage{stdx509.ExtKeyUsageServerAuth}}
+	if client {
+		t.DNSNames, t.ExtKeyUsage = nil, []stdx509.ExtKeyUsage{stdx509.ExtKeyUsageClientAuth}
+	}
+	der, err := stdx509.CreateCertificate(rand.Reader, t, p.StdCA, &key.PublicKey, p.StdCAKey)
+	if err != nil {
+		panic(err)
+	}
+	c := gmtls.Certificate{Certificate: [][]byte{der}, PrivateKey: key}
+	extraCerts[fmt.Sprintf("stdleaf/%v/%d", client, len(extraCerts))] = c
+	return c
+}
